@@ -18,9 +18,9 @@ ls -d benign/*/ | sed 's#benign/##; s#/##' | while read n; do p=$(echo $n | cut 
 cat /tmp/st/sweep-list.txt | xargs -P $J -L 1 sh -c '
   mode=$0; n=$1; p=$2; checks=$3
   if [ "$mode" = benign ]; then
-    PWH_WORKERS=5 PWH_CASE_TIMEOUT=30 timeout 3000 tools/seedcheck.py benign/$n $p $n --benign --no-tests --checks $checks > /tmp/st/sweep-$n.json 2>&1
+    PWH_WORKERS=4 PWH_CASE_TIMEOUT=30 timeout 3000 tools/seedcheck.py benign/$n $p $n --benign --no-tests --checks $checks > /tmp/st/sweep-$n.json 2>&1
   else
-    PWH_WORKERS=5 PWH_CASE_TIMEOUT=30 timeout 3000 tools/seedcheck.py seeded/$n $p $n --no-tests --checks $checks > /tmp/st/sweep-$n.json 2>&1
+    PWH_WORKERS=4 PWH_CASE_TIMEOUT=30 timeout 3000 tools/seedcheck.py seeded/$n $p $n --no-tests --checks $checks > /tmp/st/sweep-$n.json 2>&1
   fi
   python3 - "$mode" "$n" "$p" <<PY
 import json,sys
